@@ -59,14 +59,18 @@ pub fn run(opts: &Opts) -> i32 {
     let mut jobs = Vec::new();
     for role in Role::ALL {
         for s in &scripts {
-            jobs.push((role, s.clone()));
+            // send window exactly as large as the number of sends (a release must not need a
+            // free slot of its own) and comfortably larger
+            jobs.push((role, s.clone(), s.len() as u16));
+            jobs.push((role, s.clone(), 8u16));
         }
     }
     let path_budget: u64 = if quick { 200_000 } else { 4_000_000 };
     let complete = std::sync::atomic::AtomicU64::new(0);
     pool::par_for(jobs.len() as u64, None, |j| {
-        let (role, script) = jobs[j as usize].clone();
-        let cfg = cfg_for(role, script.clone(), true);
+        let (role, script, cap) = jobs[j as usize].clone();
+        let mut cfg = cfg_for(role, script.clone(), true);
+        cfg.cap = cap;
         let mut dfs = Dfs::new();
         let mut retire = After::Continue;
         loop {
@@ -140,6 +144,7 @@ pub fn run(opts: &Opts) -> i32 {
         let role = *rng.pick(&Role::ALL);
         let mut cfg = cfg_for(role, vec![], false);
         cfg.max_senders = 4 + rng.usize(3);
+        cfg.cap = 2 + rng.below(7) as u16;
         cfg.steps = 40;
         cfg.partial_progress_pct = *rng.pick(&[0, 30]);
         cfg.allow_cancel = rng.chance(1, 3);
